@@ -26,6 +26,7 @@ import (
 	"reflect"
 	"strings"
 
+	"github.com/itchio/lake"
 	"github.com/itchio/lake/tlc"
 	"github.com/itchio/wharf/wsync"
 
@@ -67,6 +68,8 @@ type freshOpts struct {
 	model  bool              // also emit the Coq term (group fresh)
 	rel    []string
 	subkey string
+	// fixedEnvs: compression i runs under c01FixedEnvs[i]; else under genEnv(case name, i)
+	fixedEnvs bool
 }
 
 func blk(v byte, n int) []byte { return bytes.Repeat([]byte{v}, n) }
@@ -104,49 +107,54 @@ func runFreshCase(c *Ctx, name string, old, nw *lib.Build, o freshOpts) error {
 	var first *lib.DecodedPatch
 	var firstOut *lib.Build
 	applyCls := "ok"
+	envs := make([]string, len(o.comps))
+	for ci := range o.comps {
+		envs[ci] = o.env(c, name, ci, oldC.Size+newC.Size).String()
+	}
 	for ci, comp := range o.comps {
+		env := o.env(c, name, ci, oldC.Size+newC.Size)
 		var dr *lib.DiffResult
 		cls, msg := lib.Guard(func() error {
 			var err error
-			dr, err = lib.Diff(oldDir, newDir, comp, nil)
+			dr, err = c01Diff(oldDir, newDir, comp, env)
 			return err
 		})
 		obs["diff"] = cls
 		if cls != "ok" {
-			oracle = fmt.Sprintf("diff (%s) %s: %s", comp, cls, msg)
+			oracle = fmt.Sprintf("diff (%s; %s) %s: %s", comp, env, cls, msg)
 			break
 		}
 		if ci == 0 {
 			obs["patchLen"], obs["fresh"], obs["reused"] = len(dr.Patch), dr.Fresh, dr.Reused
 		}
 		if dr.Fresh+dr.Reused != newC.Size {
-			oracle = fmt.Sprintf("fresh %d + reused %d bytes != new build size %d", dr.Fresh, dr.Reused, newC.Size)
+			oracle = fmt.Sprintf("(%s; %s) fresh %d + reused %d bytes != new build size %d", comp, env, dr.Fresh, dr.Reused, newC.Size)
 			break
 		}
 		dp, err := lib.DecodePatch(dr.Patch)
 		if err != nil {
-			oracle = fmt.Sprintf("patch (%s) does not follow the patch grammar: %v", comp, err)
+			oracle = fmt.Sprintf("patch (%s; %s) does not follow the patch grammar: %v", comp, env, err)
 			break
 		}
 		if bad := checkPlainStream(dp, comp, oldC, newC, old, nw); bad != "" {
-			oracle = fmt.Sprintf("patch (%s): %s", comp, bad)
+			oracle = fmt.Sprintf("patch (%s; %s): %s", comp, env, bad)
 			break
 		}
 		if first == nil {
 			first = dp
 			obs["msgs"] = lib.MsgSummary(dp.Msgs)
 		} else if !reflect.DeepEqual(first.Msgs, dp.Msgs) {
-			oracle = fmt.Sprintf("the message list under %s differs from the one under %s", comp, o.comps[0])
+			oracle = fmt.Sprintf("the message list under %s (%s) differs from the one under %s (%s)", comp, env, o.comps[0], envs[0])
 			break
 		}
 		cls, msg = lib.Guard(func() error {
-			_, err := lib.ApplyFresh(dr.Patch, oldDir, outDir, nil, nil)
+			_, err := lib.ApplyFresh(dr.Patch, oldDir, outDir, nil, c01WrapTarget(env))
 			return err
 		})
 		obs["apply"] = cls
 		applyCls = cls
 		if cls != "ok" {
-			oracle = fmt.Sprintf("apply (%s) %s: %s", comp, cls, msg)
+			oracle = fmt.Sprintf("apply (%s; %s) %s: %s", comp, env, cls, msg)
 			break
 		}
 		got, err := lib.ReadBuild(outDir)
@@ -157,7 +165,7 @@ func runFreshCase(c *Ctx, name string, old, nw *lib.Build, o freshOpts) error {
 			firstOut = got
 		}
 		if d := lib.DiffBuilds(got, nw); d != "" {
-			oracle = fmt.Sprintf("output tree (%s) differs from the new build: %s", comp, d)
+			oracle = fmt.Sprintf("output tree (%s; %s) differs from the new build: %s", comp, env, d)
 			break
 		}
 		o2, err := lib.ReadBuild(oldDir)
@@ -170,7 +178,7 @@ func runFreshCase(c *Ctx, name string, old, nw *lib.Build, o freshOpts) error {
 		}
 	}
 	cs := &lib.Case{Class: o.class, Nontrivial: len(o.rel) >= 2 || (len(o.rel) == 1 && o.rel[0] != "identical"),
-		Input: map[string]interface{}{"old": old.Summary(), "new": nw.Summary(), "relations": o.rel, "compressions": compNames(o.comps), "sub": o.subkey},
+		Input: map[string]interface{}{"old": old.Summary(), "new": nw.Summary(), "relations": o.rel, "compressions": compNames(o.comps), "envs": envs, "sub": o.subkey},
 		Obs:   obs, Oracle: oracle}
 	if o.model && first != nil && firstOut != nil {
 		d := lib.NewPathDict()
@@ -199,6 +207,16 @@ func runFreshCase(c *Ctx, name string, old, nw *lib.Build, o freshOpts) error {
 	}
 	c.Out.Emit(cs)
 	return nil
+}
+
+// env: the configuration compression ci of this case runs under.
+func (o freshOpts) env(c *Ctx, name string, ci int, bytesTotal int64) c01Env {
+	if o.fixedEnvs {
+		e := c01FixedEnvs[ci%len(c01FixedEnvs)]
+		e.seed = uint64(ci) + 1
+		return e
+	}
+	return genEnv(c, name, ci, bytesTotal)
 }
 
 func compNames(cs []lib.Compression) []string {
@@ -253,7 +271,7 @@ func c01Corpus(c *Ctx) error {
 			file("pack/d-other.bin", o), file("pack/e-tail.bin", w[2*BS:]), file("readme", []byte("hello"))),
 		[]string{"split", "copy", "split-resumed", "rename", "same"}})
 	for _, p := range ps {
-		if err := runFreshCase(c, "c01-corpus-"+p.name, p.old, p.new, freshOpts{class: "corpus/" + p.name, comps: lib.Compressions, model: true, rel: p.rel, subkey: p.name}); err != nil {
+		if err := runFreshCase(c, "c01-corpus-"+p.name, p.old, p.new, freshOpts{class: "corpus/" + p.name, comps: lib.Compressions, model: true, rel: p.rel, subkey: p.name, fixedEnvs: true}); err != nil {
 			return err
 		}
 	}
@@ -776,41 +794,78 @@ func runCraft(c *Ctx, name string, cf *craft, comp lib.Compression) error {
 	if err != nil {
 		return err
 	}
-	cls, msg := lib.Guard(func() error {
-		_, err := lib.ApplyFresh(patch, oldDir, outDir, nil, nil)
-		return err
-	})
-	oracle := ""
-	var got *lib.Build
-	if cls == "ok" {
-		got, err = lib.ReadBuild(outDir)
-		if err != nil {
+	// the old build is served the way genEnv says (reader styles only matter on the apply side here)
+	env := genEnv(c, name, 0, oldC.Size+newC.Size)
+	// run: apply with the old-build pool wrapped by wrap; the oracle of a well-formed hand-made
+	// patch: it must apply and give exactly the contents its ops denote
+	run := func(wrap func(lake.Pool, *tlc.Container) lake.Pool) (cls, msg, oracle string, got *lib.Build, err error) {
+		cls, msg = lib.Guard(func() error {
+			_, err := lib.ApplyFresh(patch, oldDir, outDir, nil, wrap)
 			return err
-		}
-	} else {
+		})
 		got = &lib.Build{}
-	}
-	if cf.want != nil {
-		// a well-formed hand-made patch: it must apply and give exactly the contents its ops denote
-		if cls != "ok" {
-			oracle = "well-formed crafted patch: " + cls + ": " + msg
-		} else {
-			for p, w := range cf.want {
-				e := got.Get(p)
-				if e == nil || e.Kind != "file" || !bytes.Equal(e.Data, w) {
-					oracle = fmt.Sprintf("crafted patch: %s does not hold the bytes its ops denote", p)
+		if cls == "ok" {
+			if got, err = lib.ReadBuild(outDir); err != nil {
+				return
+			}
+		}
+		if cf.want != nil {
+			if cls != "ok" {
+				oracle = "well-formed crafted patch: " + cls + ": " + msg
+			} else {
+				for p, w := range cf.want {
+					e := got.Get(p)
+					if e == nil || e.Kind != "file" || !bytes.Equal(e.Data, w) {
+						oracle = fmt.Sprintf("crafted patch: %s does not hold the bytes its ops denote", p)
+					}
 				}
 			}
 		}
+		return
+	}
+	cls, msg, oracle, got, err := run(c01WrapTarget(env))
+	if err != nil {
+		return err
+	}
+	finding := ""
+	obs := map[string]interface{}{"class": cls, "msg": firstLine(msg)}
+	if env.tgt.maxChunk > 0 && hasBsdiffAdd(cf.msgs) {
+		// Known finding C01-lrufile-short-read: bsdiff/lrufile fills a 32 KiB chunk with ONE Read of
+		// the old file's ReadSeeker, so a bsdiff series is only rebuilt correctly when that reader
+		// never returns fewer bytes than asked (os.File). The model gets the run over the plain
+		// pool; a failure that only the short reads produce is reported under the finding's id.
+		cls2, msg2, oracle2, got2, err := run(nil)
+		if err != nil {
+			return err
+		}
+		obs["styledPoolClass"], obs["styledPoolOracle"] = cls, oracle
+		if oracle != "" && oracle2 == "" {
+			finding = "C01-lrufile-short-read"
+			oracle = fmt.Sprintf("old-build pool reading %s: %s (applies correctly over a pool that fills every read)", env.tgt, oracle)
+		} else {
+			oracle = oracle2
+		}
+		cls, msg, got = cls2, msg2, got2
+		obs["class"], obs["msg"] = cls, firstLine(msg)
 	}
 	d := lib.NewPathDict()
 	os.RemoveAll(outDir)
 	c.Out.Emit(&lib.Case{Group: "craft", Class: "craft/" + cf.class, Nontrivial: len(cf.msgs) > 3,
-		Input: map[string]interface{}{"old": cf.old.Summary(), "newFiles": fmt.Sprint(cf.files), "msgs": lib.MsgSummary(cf.msgs), "compression": comp.String()},
-		Obs:   map[string]interface{}{"class": cls, "msg": firstLine(msg)}, Oracle: oracle,
+		Input: map[string]interface{}{"old": cf.old.Summary(), "newFiles": fmt.Sprint(cf.files), "msgs": lib.MsgSummary(cf.msgs), "compression": comp.String(), "oldPool": env.tgt.String()},
+		Obs:   obs, Oracle: oracle, Finding: finding,
 		Coq: fmt.Sprintf("($ID%%N, %s, %s, %s, %s, %s, %s)", lib.CoqContainer(oldC, d), lib.CoqContainer(newC, d), coqRleList(oldContents(oldC, cf.old)),
 			lib.CoqMsgs(cf.msgs), lib.CoqZ(classCode(cls)), lib.CoqTree(got, d))})
 	return nil
+}
+
+// hasBsdiffAdd: some bsdiff control adds bytes of the old file (read through bsdiff/lrufile).
+func hasBsdiffAdd(ms []lib.PMsg) bool {
+	for _, m := range ms {
+		if m.Kind == "ct" && len(m.Add) > 0 {
+			return true
+		}
+	}
+	return false
 }
 
 func firstLine(s string) string {
